@@ -33,6 +33,8 @@ func runC17(c *Ctx) {
 	// a link member names another member: inside a sub-root view the link
 	// target carries the sub-root's prefix like the member names do (shared with C09)
 	r09_5(c, "R17.7")
+	// the walk behind the archive: a failure to read an entry is not dropped (shared with C04)
+	r04_15(c, "R17.8")
 }
 
 // beforeEveryHeader: every path of lit to any WriteHeader call passes a.
